@@ -188,13 +188,17 @@ class Runner(object):
         self.known, _ = load_known()
         self.fail = None     # (case, discs) most recent (= smallest so far) failing case
         self.shrink_deadline = None
+        self.debug = False   # this runner's generated cases run with DEBUG logging enabled (the flag travels inside the case)
 
     def judge(self, case, keep_sample=None):
         """Run one case; return list of unknown discrepancies."""
+        debug_logging(isinstance(case, dict) and bool(case.get('_debug_logging')))
         try:
             out = guarded(self.mod.run_case, case)
         except HarnessError:
             raise
+        finally:
+            debug_logging(False)
         if keep_sample is None:
             keep_sample = self.stats.evaluations in _SLOTS and len(self.stats.samples) < 12
         self.stats.account(case, out, keep_sample)
@@ -222,6 +226,8 @@ class Runner(object):
                   phases=[Phase.generate, Phase.shrink], print_blob=False)
         @given(strat)
         def prop(case):
+            if runner.debug and isinstance(case, dict):
+                case = dict(case, _debug_logging=True)
             bad = runner.judge(case)
             if bad:
                 if runner.fail is None:
@@ -265,11 +271,26 @@ class Runner(object):
         return None
 
 
+def debug_logging(on):
+    """pymodbus behaves differently in places when DEBUG logging is enabled (blocks guarded by isEnabledFor, records
+    built from message fields): every fourth shard runs its cases with all loggers at DEBUG into a null handler; the
+    flag is stored in the case ('_debug_logging') so that a replay runs the same way."""
+    import logging
+    root = logging.getLogger()
+    if on:
+        logging.disable(logging.NOTSET)
+        root.handlers[:] = [logging.NullHandler()]
+        root.setLevel(logging.DEBUG)
+    else:
+        logging.disable(logging.CRITICAL)
+
+
 def _shard_main(args):
     modname, tier, seed, max_examples, shrink_budget = args
     import importlib
     mod = importlib.import_module(modname)
     r = Runner(mod, tier)
+    r.debug = (seed % 4 == 3 and os.environ.get('VERIF_NO_DEBUG_LOGGING') != '1')
     try:
         fail = r.hypothesis_stage(seed, max_examples, shrink_budget)
     except HarnessError as e:
